@@ -39,6 +39,9 @@ def hook_methods(hook, u):
         return m("from_x")
     if hook == "two_from":
         return m("from_x") + [""] + m("from_y")
+    if hook == "from_x_plus_other_shape":
+        other = "s: str" if ty != "str" else "k: int"
+        return m("from_x") + [""] + m("from_t", params=other, body=['return Err("unused")'])
     if hook == "from_x_arity2":
         return m("from_x", params=f"v: {ty}, w: {ty}")
     if hook == "from_x_bad_return":
